@@ -43,6 +43,14 @@ BNCmp(a, b) == LET x == BNNorm(a)
 BNLess(a, b) == BNCmp(a, b) = -1
 BNEq(a, b)   == BNNorm(a) = BNNorm(b)
 
+\* x - y for x >= y (borrow chain); undefined (an error) otherwise
+RECURSIVE BNSubB(_, _, _, _)
+BNSubB(x, y, i, b) ==
+    IF i > Len(x) THEN <<>>
+    ELSE LET t == x[i] - Limb(y, i) - b IN
+         IF t < 0 THEN <<t + Base>> \o BNSubB(x, y, i + 1, 1) ELSE <<t>> \o BNSubB(x, y, i + 1, 0)
+BNSub(x, y) == BNNorm(BNSubB(BNNorm(x), BNNorm(y), 1, 0))
+
 RECURSIVE BNFromInt(_)
 BNFromInt(n) == IF n = 0 THEN <<>> ELSE <<n % Base>> \o BNFromInt(n \div Base)
 
